@@ -41,6 +41,10 @@ class MH(ProposalBasedSampler):
             raise ValueError("Proposal must be a cuqi.distribution.Distribution object")
         if not self.proposal.is_symmetric:
             raise ValueError("Proposal must be symmetric")
+        # The proposal is used as a random-walk increment: it has to be symmetric about zero
+        mean = getattr(self.proposal, "mean", None)
+        if mean is not None and not callable(mean) and np.any(np.asarray(mean) != 0):
+            raise ValueError("Proposal must be symmetric about zero (non-zero mean)")
 
     def step(self):
         # propose state
